@@ -293,6 +293,9 @@ static int scripted_action(Exec *ex, int hook) {
 
 static int apply_action(Exec *ex, int hook, int action, htp_tx_t *tx, TxRec *r) {
     if (action != CB_OK) ex->res->st.cb_faults_fired[action]++;
+    if ((action == CB_STOP || action == CB_ERROR) && g_cur_call && !g_cur_call->cbfault_hook) { g_cur_call->cbfault_hook = hook + 1; g_cur_call->cbfault_ret = action == CB_STOP ? HTP_STOP : HTP_ERROR; }
+    if ((action == CB_STOP || action == CB_ERROR) && tx && (hook == HK_RESPONSE_HEADERS || hook == HK_RESPONSE_HEADER_DATA) && tx->response_status_number == 101) ex->res->probes["cbfault.in_headers_of_101"]++;
+    if ((action == CB_STOP || action == CB_ERROR) && tx && tx->request_method_number == HTP_M_CONNECT) ex->res->probes["cbfault.in_connect_exchange"]++;
     switch (action) {
         case CB_DECLINED: return HTP_DECLINED;
         case CB_STOP: if (r && HOOKS[hook].side < 2) r->cb_nonok[HOOKS[hook].side] = true; return HTP_STOP;
@@ -752,6 +755,19 @@ static int do_call(Exec *ex, ConnState &c, int dir, const Chunk &ch, long &consu
     cr.rc = rc; cr.consumed = consumed; cr.ticks = g_seams.ticks - t0; cr.allocs = g_seams.n_total - a0;
     cr.conn_flags_after = cp->conn ? (unsigned) cp->conn->flags : 0; cr.ntx_after = cp->conn && cp->conn->transactions ? (int) htp_list_size(cp->conn->transactions) : -1; cr.next_tx_after = (int) cp->out_next_tx_index;
     R.st.calls++;
+    if (cr.cbfault_hook) {
+        // return codes: HTP_STOP / HTP_ERROR from a callback whose result the state machine hands straight up (start, line, headers,
+        // trailer, response-complete hooks: htp_core.h, "returning HTP_STOP from a connection callback indicates that LibHTP should
+        // stop following that particular connection") makes this very call report STOP or ERROR. Body-data and raw-data receivers,
+        // the log hook and the completion hooks run from finalisation are not in the list: their results are deliberately dropped
+        // in places (decompression, end-of-chunk flushes).
+        int h = cr.cbfault_hook - 1;
+        bool propagating = h == HK_REQUEST_LINE || h == HK_REQUEST_URI_NORMALIZE || h == HK_REQUEST_HEADERS || h == HK_REQUEST_TRAILER || h == HK_RESPONSE_START || h == HK_RESPONSE_LINE
+                           || h == HK_RESPONSE_HEADERS || h == HK_RESPONSE_TRAILER || h == HK_RESPONSE_COMPLETE;
+        if (propagating && HOOKS[h].side == dir && rc != HTP_STREAM_STOP && rc != HTP_STREAM_ERROR)
+            violate(ex, "C09", strfmt("C09.callback_failure_not_reported.%s", hook_names[h]), strfmt("dir=%d callback returned %s, call returned %d", dir, cr.cbfault_ret == HTP_STOP ? "HTP_STOP" : "HTP_ERROR", rc));
+        R.probes[strfmt("cbfault.%s.%s", propagating ? "propagating_hook" : "other_hook", (rc == HTP_STREAM_STOP || rc == HTP_STREAM_ERROR) ? "reported" : "not_reported")]++;
+    }
     if (rc >= 0 && rc < 10) R.st.rc_count[dir][rc]++;
     if (ch.gap) { R.st.gaps++; if (rc == HTP_STREAM_DATA) R.st.gaps_accepted++; }
     ex->log.byte((unsigned char) cr.kind); ex->log.u64((uint64_t) len); ex->log.u64((uint64_t) (unsigned) rc); ex->log.u64((uint64_t) consumed);
